@@ -97,7 +97,12 @@ func scannerGoroutines() int {
 }
 
 // parseObs runs ParseSource on the real parser and classifies the outcome.
-func parseObs(src string) (J, any) {
+func parseObs(src string) (J, any) { return parseObsWith(nil, src) }
+
+func parseObsWith(nt col.NotationLike, src string) (J, any) {
+	if nt == nil {
+		nt = cdc.Notation().Make()
+	}
 	var val any
 	var msg string
 	before := scannerGoroutines()
@@ -108,7 +113,7 @@ func parseObs(src string) (J, any) {
 				panic(r)
 			}
 		}()
-		val = cdc.Notation().Make().ParseSource(src)
+		val = nt.ParseSource(src)
 	})
 	j := J{"out": cr.kind}
 	switch cr.kind {
@@ -145,6 +150,10 @@ func parseObs(src string) (J, any) {
 }
 
 func cdcnLine(out *Out, pid string, caseID int, src string, extra J) (J, any) {
+	return cdcnLineWith(nil, out, pid, caseID, src, extra)
+}
+
+func cdcnLineWith(nt col.NotationLike, out *Out, pid string, caseID int, src string, extra J) (J, any) {
 	toks := scanAll(src)
 	tj := make([]J, len(toks))
 	conv := make([]any, len(toks))
@@ -160,7 +169,7 @@ func cdcnLine(out *Out, pid string, caseID int, src string, extra J) (J, any) {
 			conv[i] = nil
 		}
 	}
-	pj, val := parseObs(src)
+	pj, val := parseObsWith(nt, src)
 	j := J{"k": "cdcn", "pid": pid, "case": caseID, "src": runesOf(src), "nlines": len(strings.Split(src, "\n")),
 		"toks": tj, "conv": conv, "parse": pj}
 	for k, v := range extra {
@@ -254,6 +263,24 @@ func runC12(tier string, seed int64, out *Out) {
 		emit("[\n    1: 2\n    3: 4\n]("+ctx+")", J{"gen": "ctx"})
 		emit("[ ]("+ctx+")", J{"gen": "ctx"})
 		emit("[:]("+ctx+")", J{"gen": "ctx"})
+	}
+	// unexpected tokens whose text is long or dense in escapes (the diagnostic quotes and truncates them)
+	for _, tok := range []string{`"\"\"\"\"\"\"\"\"\"\"\"\""`, `"` + strings.Repeat("x", 39) + `"`, `"` + strings.Repeat("y", 60) + `"`,
+		`"\\\\\\\\\\\\\\\\\\\\"`, `"` + strings.Repeat("\t", 19) + `"`, strings.Repeat("9", 45), "0x" + strings.Repeat("f", 50),
+		`"` + strings.Repeat("é", 30) + `"`, `'\U0001f600'`} {
+		emit("[1 "+tok+"](Array)", J{"gen": "long-token"})
+		emit(tok, J{"gen": "long-token"})
+		emit("[\n    1: 2\n    "+tok+"\n](Catalog)", J{"gen": "long-token"})
+	}
+	// call sequences on ONE notation: a rejected document must not influence the next call
+	for _, bad := range []string{"[1, 2](List) 3", "[ ](Array)[", "[1 2](List)", "[", "[1](Lis", "[1, 2](Catalog)", "[\n    1\n    2](List)", "[1: ](Map)", "$"} {
+		nt := cdc.Notation().Make()
+		caseID++
+		cdcnLineWith(nt, out, "C12", caseID, bad, J{"gen": "seq-bad"})
+		for _, good := range []string{"[1, 2, 3](List)", "[\n    \"a\": 1\n](Catalog)\n", "[ ](Set)"} {
+			caseID++
+			cdcnLineWith(nt, out, "C12", caseID, good, J{"gen": "seq-good-after-bad"})
+		}
 	}
 	// more than 16 tokens after the error point
 	for _, head := range []string{"[1](List)", "[)", "[", "[1, $", "[1](Lis"} {
